@@ -229,8 +229,8 @@ func checkC01(p *Prog, res *Result, tier string) {
 	res.Assumptions = []string{"capacities and counts handed to a strategy are ≥ 0; names are distinct (C21)", "container/heap and sort behave as documented"}
 	res.min("KEY", 5)
 	res.min("CNT", 5)
-	res.min("CAP", 5)
-	res.min("LIM", 2)
+	res.min("CAP", 7)
+	res.min("LIM", 3)
 	res.min("ASM", 3)
 	res.min("ENT", 2)
 
@@ -471,6 +471,7 @@ func c01Auto(p *Prog, res *Result, r *stratRoles) {
 		res.ok("CNT", key, p.pos(r.loop), fmt.Sprintf("%d returning path(s), each past need == 0", n))
 	}
 	_ = placed
+	r.stepBound(p, res, true)
 	r.pushInvariants(p, res, true)
 	r.insertionGuards(p, res, true)
 }
@@ -807,6 +808,7 @@ func c01Global(p *Prog, res *Result, r *stratRoles) {
 		}
 	}
 	res.check2(why, "CNT", key, p.pos(r.loop), "for i := 0; i < need; i++ with Δplan[n] = 1 on every completed iteration; need and i untouched in the body")
+	r.stepBound(p, res, false)
 	r.pushInvariants(p, res, false)
 	r.insertionGuards(p, res, false)
 }
@@ -904,122 +906,8 @@ func c01Each(p *Prog, res *Result, r *stratRoles) {
 		}
 	}
 	res.check2(why, "CNT", key, p.pos(r.loop), "for _, n := range infos[:limit] { plan[n] += need }")
-	// CAP: sort desc by Capacity; p := Search(len, Capacity < need); p < limit refused before the loop
 	keyC := F.Name + " / the selected prefix holds only nodes whose capacity is at least the requested number"
-	whyC := ""
-	var sortCall, searchCall *ast.CallExpr
-	var pObj types.Object
-	for _, s := range r.pre {
-		ast.Inspect(s, func(n ast.Node) bool {
-			switch y := n.(type) {
-			case *ast.CallExpr:
-				if f := F.Callee(y); f != nil && f.Pkg() != nil && f.Pkg().Path() == "sort" {
-					switch f.Name() {
-					case "Slice", "SliceStable":
-						sortCall = y
-					case "Search":
-						searchCall = y
-					}
-				}
-			case *ast.AssignStmt:
-				if len(y.Rhs) == 1 && len(y.Lhs) == 1 {
-					if c, ok := unparen(y.Rhs[0]).(*ast.CallExpr); ok && F.Callee(c) != nil && F.Callee(c).Name() == "Search" {
-						pObj = F.objOf(y.Lhs[0])
-					}
-				}
-			}
-			return true
-		})
-	}
-	litCmp := func(c *ast.CallExpr, argIdx int) *ast.BinaryExpr {
-		if c == nil || len(c.Args) <= argIdx {
-			return nil
-		}
-		lit, ok := unparen(c.Args[argIdx]).(*ast.FuncLit)
-		if !ok || len(lit.Body.List) != 1 {
-			return nil
-		}
-		rt, ok := lit.Body.List[0].(*ast.ReturnStmt)
-		if !ok || len(rt.Results) != 1 {
-			return nil
-		}
-		b, _ := unparen(rt.Results[0]).(*ast.BinaryExpr)
-		return b
-	}
-	capOf := func(e ast.Expr) (string, bool) { // infos[i].Capacity -> "i"
-		sel, ok := unparen(e).(*ast.SelectorExpr)
-		if !ok || sel.Sel.Name != "Capacity" {
-			return "", false
-		}
-		ix, ok := unparen(sel.X).(*ast.IndexExpr)
-		if !ok || F.objOf(ix.X) != r.infos {
-			return "", false
-		}
-		return exprStr(ix.Index), true
-	}
-	switch {
-	case sortCall == nil || searchCall == nil || pObj == nil:
-		whyC = "no sort of the candidates followed by a sort.Search whose result is kept"
-	case F.objOf(sortCall.Args[0]) != r.infos:
-		whyC = "the sort does not order the candidate list that is then searched and sliced"
-	case sortCall.Pos() > searchCall.Pos():
-		whyC = "the search runs before the sort"
-	}
-	if whyC == "" {
-		b := litCmp(sortCall, 1)
-		okSort := false
-		if b != nil {
-			l, ok1 := capOf(b.X)
-			rr, ok2 := capOf(b.Y)
-			// descending: less(i, j) = cap[i] > cap[j]  (or cap[j] < cap[i])
-			if ok1 && ok2 && ((b.Op == token.GTR && l == "i" && rr == "j") || (b.Op == token.LSS && l == "j" && rr == "i") || (b.Op == token.GEQ && l == "i" && rr == "j")) {
-				okSort = true
-			}
-		}
-		if !okSort {
-			whyC = "the sort does not put the nodes in descending order of capacity (comparator is not `infos[i].Capacity > infos[j].Capacity`)"
-		}
-	}
-	if whyC == "" {
-		b := litCmp(searchCall, 1)
-		okSearch := false
-		if b != nil {
-			if _, ok := capOf(b.X); ok && b.Op == token.LSS && F.objOf(b.Y) == r.need {
-				okSearch = true
-			}
-			if _, ok := capOf(b.Y); ok && b.Op == token.GTR && F.objOf(b.X) == r.need {
-				okSearch = true
-			}
-		}
-		if !okSearch {
-			whyC = "the search predicate is not `infos[i].Capacity < need`: the boundary found is not the first node that cannot take `need` instances"
-		}
-	}
-	if whyC == "" {
-		// `p < limit` (or limit > p) → refusal, dominating the loop
-		g := skipGuard(F, r.loop, func(cond ast.Expr) bool {
-			b, ok := unparen(cond).(*ast.BinaryExpr)
-			if !ok {
-				return false
-			}
-			return (b.Op == token.LSS && F.objOf(b.X) == pObj && F.objOf(b.Y) == r.limit) || (b.Op == token.GTR && F.objOf(b.Y) == pObj && F.objOf(b.X) == r.limit)
-		})
-		if g == nil {
-			// go/cfg has no node for the range statement: anchor on its operand
-			if rs != nil {
-				g = skipGuard(F, rs.X, func(cond ast.Expr) bool {
-					b, ok := unparen(cond).(*ast.BinaryExpr)
-					if !ok {
-						return false
-					}
-					return (b.Op == token.LSS && F.objOf(b.X) == pObj && F.objOf(b.Y) == r.limit) || (b.Op == token.GTR && F.objOf(b.Y) == pObj && F.objOf(b.X) == r.limit)
-				})
-			}
-		}
-		if g == nil {
-			whyC = "no refusal `p < limit` dominates the selection: the first `limit` nodes can include nodes whose capacity is below the requested number"
-		}
-	}
+	whyC := eachSelectionShape(p, r)
 	res.check2(whyC, "CAP", keyC, p.pos(r.loop), "descending sort on Capacity; p = first index with Capacity < need; p < limit refused; selection is infos[:limit]")
 }
 
@@ -1240,7 +1128,7 @@ var c02Allowed = map[string]map[string]bool{
 func checkC02(p *Prog, res *Result, tier string) {
 	res.Technique = "enumeration of every refusing return of each placement strategy with the condition that guards it (path enumeration with a linear symbolic state), compared with the refusal conditions of the strategy's rule; overflow rule for arithmetic on quantities that can be unlimited (math.MaxInt); nil-plan rule for refusals"
 	res.Explanation = "RF every return that refuses (non-nil error expression) is guarded by one of the conditions the strategy's rule names — AUTO/GLOBAL: total < need (strictly: an exact fit is feasible), heap exhausted; DRAINED: total < need, fall-through after the loop; EACH: fewer nodes than the limit, no node with enough capacity, fewer such nodes than the limit; FILL: fewer nodes than the limit, fall-through after the loop — so a feasible request is not refused by an extra or a shifted test; " +
-		"NIL a refusal returns no plan; UNL a quantity that can be math.MaxInt (a node's capacity when the request asks for no memory and no CPU binding, and the saturating total) is never an operand of + or * in the strategies and in the assembly of their inputs — an addition would wrap and turn an unlimited node into one that cannot take anything; " +
+		"SRT (EACH) the count of fitting nodes that the refusals compare is the result of a binary search over a list sorted in descending capacity with the predicate Capacity < need — on any other order the count is arbitrary and both wrong refusals and wrong plans follow; NIL a refusal returns no plan; UNL a quantity that can be math.MaxInt (a node's capacity when the request asks for no memory and no CPU binding, and the saturating total) is never an operand of + or * in the strategies and in the assembly of their inputs — an addition would wrap and turn an unlimited node into one that cannot take anything; " +
 		"TOT the total handed to the strategies is the manager's (saturating) total, untouched."
 	res.NotCovered = "that the refusal conditions are also sufficient for infeasibility in every input (e.g. AUTO with a per-node limit refuses through heap exhaustion: that this happens exactly when the limit makes the request infeasible follows from the C01 invariants, by hand); the numeric feasibility computation itself"
 	res.Assumptions = []string{"the table of refusal conditions per strategy (printed under tables) is the reading of the property's statement"}
@@ -1249,6 +1137,7 @@ func checkC02(p *Prog, res *Result, tier string) {
 	res.min("NIL", 5)
 	res.min("UNL", 5)
 	res.min("TOT", 1)
+	res.min("SRT", 1)
 	for _, n := range []string{"AUTO", "GLOBAL", "DRAINED", "EACH", "FILL"} {
 		r := resolveStrat(p, n)
 		if r == nil || len(r.problems) > 0 {
@@ -1340,6 +1229,9 @@ func checkC02(p *Prog, res *Result, tier string) {
 			}
 			res.check(has, "RF", F.Name+" / an infeasible total is refused before anything is planned", p.pos(F.Decl), "total < need → refusal", "no `total < need` refusal: with less capacity than demand the loop plans what it can and then fails or, for DRAINED, falls through")
 		}
+		if n == "EACH" {
+			res.check2(eachSelectionShape(p, r), "SRT", F.Name+" / the number of fitting nodes that the refusals test is computed on a list sorted for that search", p.pos(F.Decl), "descending sort on Capacity, then sort.Search(Capacity < need): p is the number of nodes that can take `need`")
+		}
 		// UNL: no + or * on a possibly-unlimited quantity
 		key := F.Name + " / no addition or multiplication on a capacity or total that can be unlimited"
 		var off ast.Node
@@ -1370,10 +1262,7 @@ func checkC02(p *Prog, res *Result, tier string) {
 					}
 				case *ast.AssignStmt:
 					if (w.Tok == token.ADD_ASSIGN || w.Tok == token.MUL_ASSIGN) && len(w.Lhs) == 1 && isIntLike(fn.typeOf(w.Lhs[0])) && (unl(w.Lhs[0]) || unl(w.Rhs[0])) {
-						// plan[n] += Capacity is a copy into a fresh cell, not arithmetic on it — only flag when the target is unlimited
-						if unl(w.Lhs[0]) {
-							off = w
-						}
+						off = w
 					}
 				case *ast.IncDecStmt:
 					if w.Tok == token.INC && unl(w.X) {
@@ -1385,7 +1274,7 @@ func checkC02(p *Prog, res *Result, tier string) {
 		}
 		visit(F)
 		if off != nil {
-			res.bad("UNL", key, p.pos(off), "`"+exprStr(off.(ast.Node).(ast.Expr))+"` adds to (or multiplies) a quantity that is math.MaxInt when the request asks for no memory and no CPU binding: the result wraps to a negative number and the node is treated as unable to take anything — a feasible request is refused")
+			res.bad("UNL", key, p.pos(off), "`"+nodeStr(F, off)+"` adds to (or multiplies) a quantity that is math.MaxInt when the request asks for no memory and no CPU binding: the result wraps to a negative number and the node is treated as unable to take anything — a feasible request is refused")
 		} else {
 			res.ok("UNL", key, p.pos(F.Decl), "capacities and the total are only compared, decremented, subtracted from or copied")
 		}
@@ -1436,4 +1325,185 @@ func sortedBoolKeys(m map[string]bool) []string {
 	}
 	sort.Strings(out)
 	return out
+}
+
+// eachSelectionShape: descending sort on Capacity, sort.Search with predicate Capacity < need over the same list, and the
+// refusal `p < limit` dominating the selection loop; returns "" when the shape is there, else what is missing
+func eachSelectionShape(p *Prog, r *stratRoles) string {
+	F := r.F
+	rs, _ := r.loop.(*ast.RangeStmt)
+	whyC := ""
+	// CAP: sort desc by Capacity; p := Search(len, Capacity < need); p < limit refused before the loop
+	var sortCall, searchCall *ast.CallExpr
+	var pObj types.Object
+	for _, s := range r.pre {
+		ast.Inspect(s, func(n ast.Node) bool {
+			switch y := n.(type) {
+			case *ast.CallExpr:
+				if f := F.Callee(y); f != nil && f.Pkg() != nil && f.Pkg().Path() == "sort" {
+					switch f.Name() {
+					case "Slice", "SliceStable":
+						sortCall = y
+					case "Search":
+						searchCall = y
+					}
+				}
+			case *ast.AssignStmt:
+				if len(y.Rhs) == 1 && len(y.Lhs) == 1 {
+					if c, ok := unparen(y.Rhs[0]).(*ast.CallExpr); ok && F.Callee(c) != nil && F.Callee(c).Name() == "Search" {
+						pObj = F.objOf(y.Lhs[0])
+					}
+				}
+			}
+			return true
+		})
+	}
+	litCmp := func(c *ast.CallExpr, argIdx int) *ast.BinaryExpr {
+		if c == nil || len(c.Args) <= argIdx {
+			return nil
+		}
+		lit, ok := unparen(c.Args[argIdx]).(*ast.FuncLit)
+		if !ok || len(lit.Body.List) != 1 {
+			return nil
+		}
+		rt, ok := lit.Body.List[0].(*ast.ReturnStmt)
+		if !ok || len(rt.Results) != 1 {
+			return nil
+		}
+		b, _ := unparen(rt.Results[0]).(*ast.BinaryExpr)
+		return b
+	}
+	capOf := func(e ast.Expr) (string, bool) { // infos[i].Capacity -> "i"
+		sel, ok := unparen(e).(*ast.SelectorExpr)
+		if !ok || sel.Sel.Name != "Capacity" {
+			return "", false
+		}
+		ix, ok := unparen(sel.X).(*ast.IndexExpr)
+		if !ok || F.objOf(ix.X) != r.infos {
+			return "", false
+		}
+		return exprStr(ix.Index), true
+	}
+	switch {
+	case sortCall == nil || searchCall == nil || pObj == nil:
+		whyC = "no sort of the candidates followed by a sort.Search whose result is kept"
+	case F.objOf(sortCall.Args[0]) != r.infos:
+		whyC = "the sort does not order the candidate list that is then searched and sliced"
+	case sortCall.Pos() > searchCall.Pos():
+		whyC = "the search runs before the sort"
+	}
+	if whyC == "" {
+		b := litCmp(sortCall, 1)
+		okSort := false
+		if b != nil {
+			l, ok1 := capOf(b.X)
+			rr, ok2 := capOf(b.Y)
+			// descending: less(i, j) = cap[i] > cap[j]  (or cap[j] < cap[i])
+			if ok1 && ok2 && ((b.Op == token.GTR && l == "i" && rr == "j") || (b.Op == token.LSS && l == "j" && rr == "i") || (b.Op == token.GEQ && l == "i" && rr == "j")) {
+				okSort = true
+			}
+		}
+		if !okSort {
+			whyC = "the sort does not put the nodes in descending order of capacity (comparator is not `infos[i].Capacity > infos[j].Capacity`)"
+		}
+	}
+	if whyC == "" {
+		b := litCmp(searchCall, 1)
+		okSearch := false
+		if b != nil {
+			if _, ok := capOf(b.X); ok && b.Op == token.LSS && F.objOf(b.Y) == r.need {
+				okSearch = true
+			}
+			if _, ok := capOf(b.Y); ok && b.Op == token.GTR && F.objOf(b.X) == r.need {
+				okSearch = true
+			}
+		}
+		if !okSearch {
+			whyC = "the search predicate is not `infos[i].Capacity < need`: the boundary found is not the first node that cannot take `need` instances"
+		}
+	}
+	if whyC == "" {
+		// `p < limit` (or limit > p) → refusal, dominating the loop
+		g := skipGuard(F, r.loop, func(cond ast.Expr) bool {
+			b, ok := unparen(cond).(*ast.BinaryExpr)
+			if !ok {
+				return false
+			}
+			return (b.Op == token.LSS && F.objOf(b.X) == pObj && F.objOf(b.Y) == r.limit) || (b.Op == token.GTR && F.objOf(b.Y) == pObj && F.objOf(b.X) == r.limit)
+		})
+		if g == nil {
+			// go/cfg has no node for the range statement: anchor on its operand
+			if rs != nil {
+				g = skipGuard(F, rs.X, func(cond ast.Expr) bool {
+					b, ok := unparen(cond).(*ast.BinaryExpr)
+					if !ok {
+						return false
+					}
+					return (b.Op == token.LSS && F.objOf(b.X) == pObj && F.objOf(b.Y) == r.limit) || (b.Op == token.GTR && F.objOf(b.Y) == pObj && F.objOf(b.X) == r.limit)
+				})
+			}
+		}
+		if g == nil {
+			whyC = "no refusal `p < limit` dominates the selection: the first `limit` nodes can include nodes whose capacity is below the requested number"
+		}
+	}
+	return whyC
+}
+
+// stepBound: what a node is given in one step is covered by its capacity (and, for AUTO, by what the limit leaves). A step
+// of exactly one instance is covered by the insertion filter (a node in the heap has capacity left and is below the
+// limit); any other amount needs an explicit test on the path.
+func (r *stratRoles) stepBound(p *Prog, res *Result, withLimit bool) {
+	key := r.F.Name + " / what a node is given in one step is covered by its capacity"
+	keyL := r.F.Name + " / what a node is given in one step is covered by what the per-node limit leaves"
+	why, whyL, n := "", "", 0
+	for _, pa := range r.loopPaths {
+		d := deltaOf(pa.state, "plan[E]")
+		if d.isZero() || !r.continuing(pa) {
+			continue
+		}
+		n++
+		if d.eq(linConst(1)) {
+			continue
+		}
+		capOK, limOK := false, false
+		for _, c := range pa.conds {
+			// Capacity - d >= 0
+			g := linSym("E.Capacity").sub(d)
+			if (c.op == ">=" && c.diff.eq(g)) || (c.op == "<=" && c.diff.eq(linConst(0).sub(g))) {
+				capOK = true
+			}
+			gl := linSym("limit").sub(linSym("E.Count")).sub(d)
+			if (c.op == ">=" && c.diff.eq(gl)) || (c.op == "<=" && c.diff.eq(linConst(0).sub(gl))) {
+				limOK = true
+			}
+		}
+		if !capOK {
+			why = fmt.Sprintf("on the path [%s] a node is given %s instances in one step and no test `%s <= Capacity` lies on the path: the insertion filter only guarantees room for one", pathLabel(pa), d.String(), d.String())
+		}
+		if !limOK {
+			whyL = fmt.Sprintf("on the path [%s] a node is given %s instances in one step and no test against `limit - Count` lies on the path: the insertion filter only guarantees room for one below the limit", pathLabel(pa), d.String())
+		}
+	}
+	if n == 0 {
+		res.undecided("CAP", key, p.pos(r.loop), "no placing path")
+		return
+	}
+	res.check2(why, "CAP", key, p.pos(r.loop), fmt.Sprintf("%d placing path(s): one instance per step (room guaranteed by the insertion filter) or an explicit test", n))
+	if withLimit {
+		res.check2(whyL, "LIM", keyL, p.pos(r.loop), fmt.Sprintf("%d placing path(s): one instance per step or an explicit test against limit − Count", n))
+	}
+}
+
+func nodeStr(fn *FuncNode, n ast.Node) string {
+	if e, ok := n.(ast.Expr); ok {
+		return exprStr(e)
+	}
+	switch y := n.(type) {
+	case *ast.AssignStmt:
+		return exprStr(y.Lhs[0]) + " " + y.Tok.String() + " " + exprStr(y.Rhs[0])
+	case *ast.IncDecStmt:
+		return exprStr(y.X) + y.Tok.String()
+	}
+	return fn.Pkg.Fset.Position(n.Pos()).String()
 }
